@@ -211,6 +211,14 @@ def check_C12(ctx, replay=None):
                 p = ctx.violation("counterexample", dict(what="a syscall number of arch.%s disagrees with an independent source" % abi, source=oname,
                                                          name=s, table_number=rn[s.encode()], source_number=n), True)
                 rewrite_with_replay_cmd(ctx, p)
+        if oname in ("uapi_x86_64", "uapi_i386", "uapi_x32", "uapi_generic64", "gosyscall_amd64", "gosyscall_arm64") and rn:
+            # the sources that describe the same kernel releases as the tables are COVERED by them (C12_tables_cover_complete_sources)
+            for (n, s) in otables.get(tname, []):
+                if s.encode() not in rn and (n, s) != (84, "sync_file_range2"):
+                    nbad += 1
+                    p = ctx.violation("counterexample", dict(what="arch.%s has no entry for a syscall that an independent source of the same kernel range lists: a policy naming it is refused (or, by number, the call is unknown)" % abi,
+                                                             source=oname, name=s, source_number=n, table_name_at_that_number=(rt.get(n) or b"").decode() or None), True)
+                    rewrite_with_replay_cmd(ctx, p)
         for n, s in rt.items():
             if n in onum and s not in onum[n] and not (s == b"fstatat" and b"newfstatat" in onum[n]):
                 nbad += 1
